@@ -253,7 +253,8 @@ def run(ck):
         nsilent = 1 if not ck.thorough else 10       # (2 rounds each; a round costs the kick's 3 s time-out)
         rc, out, err = vlib.sh2([binp, "-seed", str(ck.seed), "-n", str(n), "-free", str(nfree),
                                  "-race", str(nrace), "-silent", str(nsilent),
-                                 "-front", "2" if not ck.thorough else "12", "-slow", "0" if not ck.thorough else "1"],
+                                 "-front", "2" if not ck.thorough else "12", "-slow", "0" if not ck.thorough else "1",
+                                 "-budget", "150" if not ck.thorough else "900"],
                                 timeout=3000)
         if rc != 0:
             ck.broken.append({"what": "harness run failed", "detail": err[-1500:]})
@@ -263,7 +264,9 @@ def run(ck):
 
     ops = {}
     shrunk = set()
-    ck.coverage["cases_skipped_after_repeated_hangs"] = len([c for c in cases if c.get("skipped")])
+    ck.coverage["cases_skipped_after_repeated_hangs"] = len([c for c in cases if c.get("skipped")
+                                                             and not c.get("skipped_budget")])
+    ck.coverage["cases_skipped_wall_clock_budget"] = len([c for c in cases if c.get("skipped_budget")])
     cases = [c for c in cases if not c.get("skipped")]
     ck.coverage["race_rounds"] = sum(len(c.get("race", [])) for c in cases)
     for c in cases:
